@@ -283,4 +283,124 @@ Proof.
     rewrite (Hno en Hg) in Hu. discriminate.
 Qed.
 
+
+(* ------------------------------------------------------------------ the command *)
+Lemma static_automated l : static l = static x -> automated_exports c l = automated_exports c x.
+Proof. intros H. unfold automated_exports. now rewrite (static_name _ _ H), (static_path _ _ H). Qed.
+Lemma static_pristine g l : static l = static x -> pristine_tree c g l = pristine_tree c g x.
+Proof.
+  intros H. unfold pristine_tree, layerconfig_path, build_path, work_path, upper_path.
+  now rewrite (static_path _ _ H), (static_base _ _ H).
+Qed.
+
+Lemma p_renorm_Q ld : pres Qg Eg (renormalize ld).
+Proof.
+  unfold renormalize. destruct (normalize_order (ld_map ld)); [apply (p_ret Qg Eg)|apply (p_diverge Qg Eg Q_E)].
+Qed.
+
+Lemma remove_layer_run ld n l : lm_get (ld_map ld) n = Some l -> static l = static x ->
+  hoare A (remove_layer e c ld n false) (fun _ => Qg) Eg.
+Proof.
+  intros Hl Hst. unfold remove_layer.
+  apply h_guard_then; [exact A_E|]. intros G. rewrite Hl.
+  apply h_bind with (Q := fun _ => A); [apply (p_guard A Eg A_E)|]. intros u1.
+  apply h_bind with (Q := fun _ => A); [apply (p_guard A Eg A_E)|]. intros u2.
+  apply h_bind with (Q := fun _ => A); [apply (p_guard A Eg A_E)|]. intros u3.
+  apply h_bind with (Q := fun _ => A).
+  { unfold remove_export_links. rewrite (static_automated l Hst).
+    eapply h_conseq; [apply p_links|auto|auto|exact A_E]. }
+  intros u4. eapply h_bind; [apply h_get_fs|]. intros g. cbn [orb].
+  apply h_bind with (Q := fun _ => Qg); [|intros u5; apply p_renorm_Q].
+  rewrite (static_pristine g l Hst), (static_path _ _ Hst). fold d.
+  destruct (pristine_tree c g x) eqn:Ep.
+  - apply h_fs_remove; [exact Hreal|now intros g1 [Hg _]; apply A_E|].
+    intros g1 g' [Hg <-] Hr. eapply end_delete; eauto.
+  - change (d ++ D_RemovedLayerSuffix) with removed.
+    destruct (exists_ g removed) eqn:Ex; [apply h_fail; now intros g1 [Hg _]; apply A_E|].
+    apply h_fs_rename; [exact Hreal|now intros g1 [Hg _]; apply A_E|].
+    intros g1 g' [Hg <-] Hr. eapply end_rename; eauto.
+Qed.
+
 End Remove.
+
+(* ------------------------------------------------------------------ assembling the property *)
+Lemma loaded_path c f : Forall (fun l => l_path l = layer_path c (l_name l)) (read_layer_files c f).
+Proof.
+  unfold read_layer_files. generalize (Lex.sort (children f (c_layers c))). intros names.
+  induction names as [|n r IH]; cbn [fold_right]; [constructor|].
+  destruct (legal_name n); [|exact IH]. destruct (load_layer c f n) as [l|] eqn:E; [|exact IH].
+  constructor; [|exact IH]. unfold load_layer in E.
+  match type of E with match ?t with _ => _ end = _ => destruct t end; [|discriminate].
+  injection E as <-. reflexivity.
+Qed.
+
+Lemma root_not_ends_ok : ends_ok root = false.
+Proof. reflexivity. Qed.
+
+Lemma layer_path_not_root c n : legal_name n = true -> n <> [] -> beq (layer_path c n) root = false.
+Proof.
+  intros Hl Hn. apply beq_false. intros E. pose proof (legal_plain n Hl Hn) as Hp.
+  unfold layer_path in E. destruct (pathjoin2_shape (c_layers c) n Hp) as (pre & E1 & _).
+  destruct Hp as (_ & _ & _ & Hs). pose proof (ends_ok_comp pre n Hn Hs) as H.
+  rewrite <- E1, E in H. discriminate.
+Qed.
+
+Lemma test_name_need m n : test_name m n NNeed = true -> n <> [] /\ legal_name n = true.
+Proof.
+  unfold test_name. destruct n; [discriminate|]. intros H. apply andb_true_iff in H as [H _]. split; [discriminate|exact H].
+Qed.
+
+Theorem C09_model_proof c w e um n : plain_env e = true -> wf_remove c (wo_fs w) n = true ->
+  C09.step_spec c w (view_of_model c w e (CRemove n false) um) = true.
+Proof.
+  intros Hpe Hwf. set (f := wo_fs w).
+  assert (Hreal : e_pretend e = false).
+  { unfold plain_env in Hpe. apply andb_true_iff in Hpe as [H _]. now apply negb_true_iff in H. }
+  unfold C09.step_spec. unfold view_of_model. unfold run.
+  destruct (run_command e c um (CRemove n false) (MkSt (world_of w) 0 [])) as [o st] eqn:ER.
+  cbn [v_cmd v_env v_after v_res wo_fs]. rewrite Hpe. cbn [negb]. fold f.
+  destruct (layer_named c f n) as [x|] eqn:Ex; [|reflexivity].
+  unfold wf_remove in Hwf. fold f in Hwf. rewrite Ex in Hwf.
+  apply andb_true_iff in Hwf as [Hnd Hwf]. apply andb_true_iff in Hwf as [Hwf Hdirs]. apply andb_true_iff in Hwf as [Hapart Hclosed].
+  apply nodup_paths_NoDup in Hnd.
+  unfold layer_named, layers_on_disk in Ex.
+  destruct (lm_get_in _ _ _ Ex) as [Hxin Hxn].
+  pose proof (loaded_path c f) as HLP. rewrite Forall_forall in HLP. specialize (HLP x Hxin). rewrite Hxn in HLP.
+  (* the run *)
+  assert (HR : hoare (fun g => g = f) (run_command e c um (CRemove n false))
+                     (fun _ => Qg c f x) (Eg c f x)).
+  { unfold run_command. apply h_get_fs_eq.
+    apply h_guard_then; [intros g ->; apply A_E, A_f; assumption|]. intros _.
+    eapply h_bind; [eapply h_conseq; [apply (get_layers_spec c um f)|auto|intros ld g Hq; exact Hq|]|].
+    - intros g ->. apply A_E, A_f; assumption.
+    - intros ld. cbn beta. apply h_pure. intros Est.
+      pose proof (lm_get_static _ _ n Est) as Hs. rewrite Ex in Hs.
+      destruct (lm_get (ld_map ld) n) as [l|] eqn:El; [|contradiction].
+      eapply h_bind; [|intros ld'; apply (p_ret (Qg c f x) (Eg c f x))].
+      destruct (test_name (ld_map ld) n NNeed) eqn:Et.
+      + destruct (test_name_need _ _ Et) as [Hne Hleg].
+        eapply h_pre; [eapply remove_layer_run; eauto|].
+        * rewrite HLP. now apply layer_path_not_root.
+        * intros g ->. now apply A_f.
+      + unfold remove_layer. rewrite Et. intros s Hs0. cbn. rewrite Hs0. apply A_E, A_f; assumption. }
+  pose proof (HR (MkSt (world_of w) 0 []) eq_refl) as HR'. rewrite ER in HR'.
+  set (f' := w_fs (s_w st)) in *. change (fs_of st) with f' in HR'.
+  assert (HE : Eg c f x f') by (destruct o; auto; now apply Q_E).
+  destruct HE as [H1 H3].
+  apply andb_true_iff. split; [apply andb_true_iff; split|].
+  - apply forallb_forall. intros en Hen. apply filter_In in Hen as [Hin Hu]. apply andb_true_iff in Hu as [Hu Hc].
+    apply negb_true_iff in Hc. destruct (snd en) as [|y|t] eqn:En; [reflexivity| |].
+    + destruct (H1 en Hin) as [H|H]; [split; [exact Hu|now rewrite En]|rewrite En; discriminate| |];
+        rewrite En in H; unfold removed_of in H; rewrite H; cbn [opt_beq]; rewrite node_beq_refl; auto using orb_true_r.
+    + destruct (H1 en Hin) as [H|H]; [split; [exact Hu|now rewrite En]|rewrite En; discriminate| |];
+        rewrite En in H; unfold removed_of in H; rewrite H; cbn [opt_beq]; rewrite node_beq_refl; auto using orb_true_r.
+  - destruct o; cbn [rclass_of]; try reflexivity.
+    destruct (filter _ f) as [|en r] eqn:Ef; [reflexivity|].
+    destruct HR' as (_ & H2 & _). apply H2. exists en.
+    assert (Hen : In en (filter (fun e0 => at_or_under (l_path x) (fst e0) && negb (C09.created_by_add c x (fst e0) (snd e0))) f))
+      by (rewrite Ef; now left).
+    apply filter_In in Hen as [Hin Hu]. apply andb_true_iff in Hu as [Hu Hc]. apply negb_true_iff in Hc.
+    split; [exact Hin|]. now split.
+  - apply forallb_forall. intros en Hin. destruct (at_or_under (l_path x ++ D_RemovedLayerSuffix) (fst en)) eqn:Hu; [|reflexivity].
+    rewrite (H3 en Hin Hu). cbn [opt_beq]. apply node_beq_refl.
+Qed.
